@@ -22,7 +22,7 @@ from typing import Dict, List, Optional, Set, Tuple
 import sympy as sp
 
 from ..consteval import Folder, FuncVal, Opaque, Raised, Undecidable
-from ..index import AnalysisError, FunctionInfo, Index, norm, own_nodes
+from ..index import AnalysisError, FunctionInfo, Index, norm, own_nodes, resolve_local
 from ..report import Report
 from ..rules import translators as tr
 from ..rules.tables import fold_table, table_func
@@ -572,9 +572,11 @@ def check_sampled_keys(idx: Index, rep: Report):
     if not toint:
         raise AnalysisError("_statevector_to_frequencies: conversion of the exact keys to integers not found")
     # the key -> integer conversion folded on an asymmetric key: does it read the key as it is, or reversed?
-    free = {n.id for n in ast.walk(toint[0]) if isinstance(n, ast.Name) and n.id != "int"}
+    int_arg = resolve_local(g.node, toint[0].args[0])          # `rk = k[::-1]; int(rk, 2)` reads the key reversed just as `int(k[::-1], 2)` does
+    probe = ast.Call(func=toint[0].func, args=[int_arg] + list(toint[0].args[1:]), keywords=list(toint[0].keywords))
+    free = {n.id for n in ast.walk(probe) if isinstance(n, ast.Name) and n.id != "int"}
     try:
-        as_int = Folder(env={nm: "100" for nm in free}).expr(toint[0])
+        as_int = Folder(env={nm: "100" for nm in free}).expr(probe)
     except (Undecidable, Raised) as e:
         raise AnalysisError(f"_statevector_to_frequencies: {norm(toint[0])} not foldable: {e}")
     if as_int not in (4, 1):
